@@ -242,6 +242,29 @@ func genericProbes(s *shape) (ps []*probe) {
 		}),
 	})
 
+	// Complete, consistent EDNS queries that are longer than the base query and
+	// than most other traffic: a receive buffer that has shrunk to an earlier,
+	// shorter message cuts them.  The first one has the question of the base
+	// query, so a cut at the length of the base query falls exactly between
+	// the question and the OPT record.
+	for _, pad := range []int{-1, 0, 7, 60, 200, 380} {
+		ps = append(ps, &probe{
+			family: "longer-edns",
+			desc:   fmt.Sprintf("complete base query with OPT (DO set), padding option of %d bytes (-1: no option)", pad),
+			build: single(func(id uint16) []byte {
+				opt := &tbench.OPTSpec{UDPSize: 1232, DO: true}
+				if pad >= 0 {
+					opt.Options = []tbench.Option{{Code: tbench.OptPadding, Data: make([]byte, pad)}}
+				}
+				q := tbench.QuerySpec{
+					ID: id, Flags: tbench.FlagRD, Name: s.baseName(), QType: dns.TypeA, QClass: dns.ClassINET, OPT: opt,
+				}
+
+				return q.Wire()
+			}),
+		})
+	}
+
 	// Controls: complete, consistent messages.
 	ps = append(ps, &probe{
 		family: "control", desc: "complete base query", build: single(s.base),
